@@ -238,6 +238,8 @@ func TestCheck(t *testing.T) {
 	})
 	for _, m := range []string{"GET", "POST"} {
 		reqs = append(reqs, request{m, "H.com/a"}, request{m, "H.com/c"})
+		// a percent-encoded slash is part of one segment, not a separator
+		reqs = append(reqs, request{m, "h.com/a%2Fb"}, request{m, "h.com/a/b%2Fa"})
 	}
 	if f := mc.ReplayFile(); f != "" {
 		var rp replay
@@ -257,7 +259,7 @@ func TestCheck(t *testing.T) {
 		return
 	}
 	maxSet := 3
-	r.Rule = fmt.Sprintf("all endpoint declaration sets of size 1..%d over %d (method, pattern) pairs (%d patterns; host h.com, parts {a,b,{p},*}) x every declaration order x %d requests (GET/POST x paths of length 0-3 over {a,b,c}) through BuildPolicyData (the loader's entry point) and the dispatcher's getRemedies/getDiagnoses; plus sets of 2-3 over 14 pairs in which one declaration is switched off (it still is the most specific declared pattern for what it matches); non-trivial = request for which something was selected; distinct = (set, order, request)", maxSet, len(universe), len(patterns), len(reqs))
+	r.Rule = fmt.Sprintf("all endpoint declaration sets of size 1..%d over %d (method, pattern) pairs (%d patterns; host h.com, parts {a,b,{p},*}) x every declaration order x %d requests (GET/POST x paths of length 0-3 over {a,b,c}) through BuildPolicyData (the loader's entry point) and the dispatcher's getRemedies/getDiagnoses; plus the tree the accessor serves after a revert to the diagnosis-free copy of a loaded file (sets of 2-3 over 5 GET patterns x every assignment of remedy-only / diagnosis-only / both); plus sets of 2-3 over 14 pairs in which one declaration is switched off (it still is the most specific declared pattern for what it matches); non-trivial = request for which something was selected; distinct = (set, order, request)", maxSet, len(universe), len(patterns), len(reqs))
 	r.Assume("every endpoint carries a remedy of a different type (so the loader's duplicate-type check accepts overlapping endpoints) and one diagnosis",
 		"completeness (something must be selected) is not asserted: the statement is an only-if; a trailing wildcard may match an empty tail in policy mode")
 	if r.Parallel(t, 16) {
@@ -352,5 +354,6 @@ func TestCheck(t *testing.T) {
 		}
 		return true
 	})
+	revertFamily(t, r, reqs, &idx)
 	r.Finish(t)
 }
